@@ -10,52 +10,20 @@ open Drx Drx.Lscr Drx.Spec Drx.Link
 
 /-! ### shapes of embedded expressions -/
 
-theorem emb_name_ok : ∀ (e : Expr) (n : Node), FragE0 e = true → Emb e n → ∃ nm, n.name = .ok nm := by
-  intro e n hf h
-  cases e with
-  | var k v => cases k <;> (simp only [Emb] at h; obtain ⟨p, rfl⟩ := h; exact ⟨_, rfl⟩)
-  | int k => simp only [Emb] at h; obtain ⟨p, rfl⟩ := h; exact ⟨_, rfl⟩
-  | str s => simp only [Emb] at h; obtain ⟨p, rfl⟩ := h; exact ⟨_, rfl⟩
-  | sym s => simp only [Emb] at h; obtain ⟨p, rfl⟩ := h; exact ⟨_, rfl⟩
-  | un o a => simp only [Emb] at h; obtain ⟨p, x, rfl, _⟩ := h; exact ⟨_, rfl⟩
-  | bin o a b => simp only [Emb] at h; obtain ⟨p, x, y, rfl, _⟩ := h; exact ⟨_, rfl⟩
-  | field a => simp only [Emb] at h; obtain ⟨p, x, rfl, _⟩ := h; exact ⟨_, rfl⟩
-  | call f as => simp only [Emb] at h; obtain ⟨p, p', wr, ops, rfl, _⟩ := h; exact ⟨_, rfl⟩
-  | list as => simp only [Emb] at h; obtain ⟨p, p', ops, rfl, _⟩ := h; exact ⟨_, rfl⟩
-  | _ => simp [FragE0] at hf
+theorem emb_name_ok : ∀ (e : Expr) (n : Node), FragE0 e = true → Emb e n → ∃ nm, n.name = .ok nm :=
+  fun e n _ h => emb_name e n h   -- agent-link's lemma (Drx/Link.lean): follows every extension of `Emb`
 
 /-- an embedded expression is a constant node only for literals -/
 theorem emb_const (e : Expr) (n : Node) (hf : FragE0 e = true) (h : Emb e n) (hc : n.cls = .leaf .const) :
-    (∃ k, e = .int k) ∨ (∃ s, e = .str s) := by
-  cases e with
-  | var k v => cases k <;> (simp only [Emb] at h; obtain ⟨p, rfl⟩ := h; simp [Node.cls] at hc)
-  | int k => exact Or.inl ⟨k, rfl⟩
-  | str s => exact Or.inr ⟨s, rfl⟩
-  | sym s => simp only [Emb] at h; obtain ⟨p, rfl⟩ := h; simp [Node.cls] at hc
-  | un o a => simp only [Emb] at h; obtain ⟨p, x, rfl, _⟩ := h; simp [Node.cls] at hc
-  | bin o a b => simp only [Emb] at h; obtain ⟨p, x, y, rfl, _⟩ := h; simp [Node.cls] at hc
-  | field a => simp only [Emb] at h; obtain ⟨p, x, rfl, _⟩ := h; simp [Node.cls] at hc
-  | call f as => simp only [Emb] at h; obtain ⟨p, p', wr, ops, rfl, _⟩ := h; simp [Node.cls] at hc
-  | list as => simp only [Emb] at h; obtain ⟨p, p', ops, rfl, _⟩ := h; simp [Node.cls] at hc
-  | _ => simp [FragE0] at hf
+    (∃ k, e = .int k) ∨ (∃ s, e = .str s) :=
+  emb_const_lit e n h hc
 
 /-- an embedded expression is a binary node only for binary operations -/
 theorem emb_binary (e : Expr) (op : Str) (p : Int) (x y : Node) (hf : FragE0 e = true) (h : Emb e (.binary op p x y)) :
     ∃ o a b, e = .bin o a b ∧ op = binName o ∧ Emb a x ∧ Emb b y ∧ FragE0 a = true ∧ FragE0 b = true := by
-  cases e with
-  | var k v => cases k <;> (simp only [Emb] at h; obtain ⟨p, h⟩ := h; cases h)
-  | int k => simp only [Emb] at h; obtain ⟨p, h⟩ := h; cases h
-  | str s => simp only [Emb] at h; obtain ⟨p, h⟩ := h; cases h
-  | sym s => simp only [Emb] at h; obtain ⟨p, h⟩ := h; cases h
-  | un o a => simp only [Emb] at h; obtain ⟨p, x, h, _⟩ := h; cases h
-  | bin o a b =>
-    simp only [Emb] at h; obtain ⟨p', x', y', h, ha, hb⟩ := h; cases h
-    simp only [FragE0, Bool.and_eq_true] at hf
-    exact ⟨o, a, b, rfl, rfl, ha, hb, hf.1, hf.2⟩
-  | field a => simp only [Emb] at h; obtain ⟨p, x, h, _⟩ := h; cases h
-  | call f as => simp only [Emb] at h; obtain ⟨p, p', wr, ops, h, _⟩ := h; cases h
-  | list as => simp only [Emb] at h; obtain ⟨p, p', ops, h, _⟩ := h; cases h
-  | _ => simp [FragE0] at hf
+  obtain ⟨o, a, b, rfl, rfl, ha, hb⟩ := emb_binary_inv e op p x y h
+  simp only [FragE0, FragE, Bool.and_eq_true] at hf
+  exact ⟨o, a, b, rfl, rfl, ha, hb, hf.1.2, hf.2⟩
 
 theorem embLv_name_ok (lv : Expr) (l : Node) (h : EmbLv lv l) : ∃ nm, l.name = .ok nm :=
   embLv_name lv l h   -- agent-link's lemma (Drx/Link.lean): follows every extension of `EmbLv`
